@@ -17,7 +17,7 @@ seeds = args or sorted(os.listdir(f'{ROOT}/seeded'))
 def run_seed(sid):
     d = f'{ROOT}/seeded/{sid}'
     meta = json.load(open(f'{d}/meta.json'))
-    plist = props or sorted(set([meta['property']] + claimed))
+    plist = props or ([meta['property']] if os.environ.get('MX_OWN') else sorted(set([meta['property']] + claimed)))
     plist = [p for p in plist if p in claimed]
     tmp = tempfile.mkdtemp(prefix='seedmx-')
     try:
@@ -54,6 +54,6 @@ def run_seed(sid):
     finally:
         shutil.rmtree(tmp, ignore_errors=True)
 
-with cf.ThreadPoolExecutor(max_workers=3) as ex:
+with cf.ThreadPoolExecutor(max_workers=int(os.environ.get('MX_WORKERS','5'))) as ex:
     for sid, msg in ex.map(run_seed, seeds):
         print(f'{sid}: {msg}', flush=True)
